@@ -504,6 +504,11 @@ def _bloom_layout_path(size, fc, lens):
         # no false negatives: every bit of every item added so far tests as set (CBloomFilter::contains)
         # (evaluated on the layout just shown equal to filter_bytes)
         check(s_and(*[spec_bloom_contains(e, i) for i in idxs]), "an inserted element is not reported present", witness=w)
+        # history: the load message is asked for after every insertion (a peer is re-sent the filter as the wallet grows)
+        for flag in (1, 0):
+            msg = bf.filterload(flag)
+            check(_beq(msg.payload, spec_filterload(size, e, fc, tweak, flag)),
+                  "filterload payload after an insertion differs from the layout of the current bit field (stale message)", witness=w)
     data = bf.filter_bytes()
     back = h.bytes_to_bit_field(data)
     check(len(back) == size * 8 and s_and(*[a == b for a, b in zip(back, bf.bit_field)]), "bytes_to_bit_field does not invert bit_field_to_bytes",
@@ -538,6 +543,12 @@ def replay_bloom(w):
         if got != want:
             return {"violated": True, "observed": f"BloomFilter({size},{fc},{tweak}) after adding {[i.hex() for i in items]}: filter_bytes "
                                                   f"{got.hex()[:80]} != BIP37 {want.hex()[:80]}"}
+        for flag in (1, 0):
+            p = bf.filterload(flag).payload
+            e = spec_filterload(size, want, fc, tweak, flag)
+            if p != e:
+                return {"violated": True, "observed": f"BloomFilter({size},{fc},{tweak}): filterload({flag}) asked after each insertion of "
+                                                      f"{[i.hex() for i in items]}: payload {p.hex()[:80]} != {e.hex()[:80]} (stale)"}
     for flag in (0, 1, 2):
         p = bf.filterload(flag).payload
         e = spec_filterload(size, spec_bloom_bytes(size, idxs), fc, tweak, flag)
